@@ -92,6 +92,8 @@ ClassifyClauses(c) ==
      <<"C18.split",             prop /\ c.has_parts /\ (\A i \in DOMAIN c.parts : WellShaped(c.parts[i]))
                                    => ConjEquiv(t, c.parts),
                                 Why("dep-simplify", HasDepOps(t) /\ ConjEquiv(DepSimplify(t), c.parts))>>,
+     \* split "by the AND operator": no part is itself a conjunction (raw XOR operands excepted, see dep-nested)
+     <<"C18.split.clauses",     prop /\ c.has_parts /\ ~HasRawRight(t) => \A i \in DOMAIN c.parts : c.parts[i].op # "AND">>,
      <<"C18.features",          prop => (NoDup(c.features) /\ SetOf(c.features) = VarsOf(t))>> >>
 
 ---------------------------------------------------------------------------
@@ -243,6 +245,11 @@ PairClauses(p, q, expected, caseonly) ==
      <<p \o ".hash", q.eq => q.h>>,
      <<p \o ".perm", caseonly \/ (expected => q.eq)>>,
      <<p \o ".edit", caseonly \/ (~expected => ~q.eq)>> >>
+\* some bijection between the constraints of the two models pairs up constraints that the library
+\* itself reports equal (R.ctcs holds every pair i, j)
+CtcEqOf(R, i, j) == \E k \in DOMAIN R.ctcs : R.ctcs[k].i = i /\ R.ctcs[k].j = j /\ R.ctcs[k].eq
+CtcMatching(R, n) ==
+  \E p \in Permutations(1..n) : \A i \in 1..n : CtcEqOf(R, i, p[i])
 CompareClauses(cur, e) ==
   LET a == e.post
       b == e.other
@@ -257,6 +264,10 @@ CompareClauses(cur, e) ==
      <<"C20.compare.right", SpecEq(b, cur.other) /\ SameBag(b.feats, cur.other.feats)>> >>
   \o Guarded(ok,
        PairClauses("C20.model", R.model, SpecEq(a, b), e.args.how = "casectc" /\ a.ctcs # <<>>)
+       \* whatever it answers for letter-case variants, model equality must agree with the element equality it is built from
+       \o << <<"C20.model.consistent",
+                (SpecEq([a EXCEPT !.ctcs = <<>>], [b EXCEPT !.ctcs = <<>>]) /\ Len(a.ctcs) = Len(b.ctcs) /\ Len(a.ctcs) <= 4
+                 /\ CtcMatching(R, Len(a.ctcs))) => R.model.eq>> >>
        \o Concat([k \in DOMAIN R.feats |-> PairClauses("C20.feature", R.feats[k],
                       a.feats[R.feats[k].i].name = b.feats[R.feats[k].j].name, FALSE)])
        \o Concat([k \in DOMAIN R.rels |-> PairClauses("C20.relation", R.rels[k],
@@ -376,6 +387,18 @@ ExecBigClauses(cur, e) ==
         <<"C16.big.abf", R.errors = <<>> => (R.nbranch = 0 \/ RatioOK(R.abf100, R.nfeat - 1, R.nbranch))>>,
         <<"C16.big.varpoints", R.errors = <<>> => R.nvarpoints <= R.nbranch>> >>
 
+\* A chain of n mandatory features (harness-built, too deep for TLC to ingest): its only
+\* configuration selects everything, so the results are known in closed form.
+ExecChainClauses(cur, e) ==
+  LET R == e.ret
+      n == e.args.n
+  IN << <<"C13.chain.total", R.estimate_out = "value">>, <<"C13.chain.value", R.estimate_out = "value" => R.estimate = 1>>,
+        <<"C14.chain.total", R.core_out = "value">>,     <<"C14.chain.value", R.core_out = "value" => R.core_len = n /\ R.core_distinct = n>>,
+        <<"C15.chain.total", R.atomic_out = "value">>,   <<"C15.chain.value", R.atomic_out = "value" => R.atomic_sets = 1 /\ R.atomic_first = n>>,
+        <<"C16.chain.total", R.depth_out = "value" /\ R.leaves_out = "value" /\ R.anc_out = "value">>,
+        <<"C16.chain.value", (R.depth_out = "value" /\ R.leaves_out = "value" /\ R.anc_out = "value")
+                              => (R.depth = n - 1 /\ R.leaves = 1 /\ R.anc_len = n - 1)>> >>
+
 ---------------------------------------------------------------------------
 (* Exports (C10, C11): e.ret.doc is the parsed abstract syntax *)
 ExportClauses(cur, e) ==
@@ -429,10 +452,12 @@ Clauses(cur, e) ==
     [] e.a = "ReadRef"        -> ReadRefClauses(cur, e)
     [] e.a = "ReadCorpus"     -> ReadCorpusClauses(cur, e)
     [] e.a = "ExecBig"        -> ExecBigClauses(cur, e)
+    [] e.a = "ExecChain"      -> ExecChainClauses(cur, e)
     [] e.a = "ReadBack"       -> << <<"C12.utf8.names." \o e.args.fmt,
                                       e.out = "value" => (e.anom = <<>> /\ Names(e.post) = Names(cur.model))>> >>
     [] e.a = "ParseJson"      -> << <<"C05.parsejson.total", InFrag("json", cur.m0) => e.out = "value">> >>
     [] e.a = "Other"          -> << <<"T.other", TRUE>> >>
+    [] e.a = "WriteOther"     -> << <<"T.other", TRUE>> >>
     [] OTHER                  -> << <<"T.unknown-action", FALSE>> >>
 
 Advance(cur, e) ==
